@@ -441,9 +441,37 @@ func mayAuth(c *Conn) bool {
 
 // Explicit panics that guard configuration, not client input.
 
+// What the server advertises it is willing to do: STARTTLS is put into the
+// capability list only where it is permitted, an AUTH= mechanism only where
+// credentials would be accepted (TLS or InsecureAuth), and LOGINDISABLED only
+// where they would be refused before authentication.
+//
+//@ pure
+func capMayBeOffered(c *Conn, x imap.Cap) bool {
+	if x == imap.CapStartTLS {
+		return c.server.options.TLSConfig != nil && c.state == imap.ConnStateNotAuthenticated && !isTLS(c.conn)
+	}
+	if len(x) >= 5 && x[0] == 'A' && x[1] == 'U' && x[2] == 'T' && x[3] == 'H' && x[4] == '=' {
+		return mayAuth(c) // an authentication mechanism
+	}
+	if x == imap.CapLoginDisabled {
+		return !mayAuth(c) && c.state == imap.ConnStateNotAuthenticated
+	}
+	return true
+}
+
 //@ func (c *Conn) availableCaps() (result []imap.Cap)
 //@   panics assumed-unreachable imapserver.New refuses a configuration without IMAP4rev1/IMAP4rev2, so at least one of them is available
 //@   ensures c.state == old(c.state)
+//@   props C17:callsite C05:callsite
+//@   callsite append(s []imap.Cap, elems []imap.Cap) requires forall k int :: 0 <= k && k < len(elems) ==> capMayBeOffered(c, elems[k])
+//@   callsite addAvailableCaps(caps *[]imap.Cap, available imap.CapSet, l []imap.Cap) requires forall k int :: 0 <= k && k < len(l) ==> capMayBeOffered(c, l[k])
+
+// addAvailableCaps only ever appends elements of the list it is given.
+//
+//@ func addAvailableCaps(caps *[]imap.Cap, available imap.CapSet, l []imap.Cap)
+//@   props C17:callsite C05:callsite
+//@   callsite append(s []imap.Cap, elems []imap.Cap) requires forall k int :: 0 <= k && k < len(elems) ==> exists j int :: 0 <= j && j < len(l) && l[j] == elems[k]
 
 // isStartTLSConn: the connection handed to the TLS layer replays the drained
 // plaintext first (startTLSConn reads through its MultiReader).
